@@ -103,6 +103,7 @@ class Env:
 
         self.Process = FakeProcess
         self.Manager = FakeManager
+        self.os_kill = _OsKillShim(self)
 
 
 class _OsShim:
@@ -114,6 +115,23 @@ class _OsShim:
 
     def __getattr__(self, name):
         return getattr(_os, name)
+
+
+class _OsKillShim(_OsShim):
+    """`os` as seen by process_runner: signals sent to the stand-in workers are recorded; a worker that is gone cannot be signalled"""
+
+    def __init__(self, env: Env):
+        super().__init__(env)
+        self.signals: list[tuple[int, int]] = []       # (worker index, signal number)
+
+    def kill(self, pid, sig):  # type: ignore[no-untyped-def]
+        idx = pid - 40_000
+        if 0 <= idx < len(self._env.procs):
+            if not self._env.procs[idx].is_alive():
+                raise ProcessLookupError(3, "No such process")
+            self.signals.append((idx, int(sig)))
+            return None
+        return _os.kill(pid, sig)
 
 
 class _MpShim:
@@ -136,7 +154,7 @@ def stand_ins(env: Env):
         (MT, "Process", env.Process), (MT, "Manager", env.Manager), (MT, "cpu_count", lambda: env.cpu),
         (PP, "Process", env.Process), (PP, "Manager", env.Manager), (PP, "os", _OsShim(env)),
         (PP, "multiprocessing", _MpShim()),
-        (PR, "Process", env.Process), (PR, "Manager", env.Manager), (PR, "cpu_count", lambda: env.cpu),
+        (PR, "Process", env.Process), (PR, "Manager", env.Manager), (PR, "cpu_count", lambda: env.cpu), (PR, "os", env.os_kill),
     ]
     saved = [(m, n, getattr(m, n)) for m, n, _ in patches]
     for m, n, v in patches:
@@ -747,6 +765,88 @@ def paused_worker_dies(ctx: Ctx, app, task, backend: str) -> None:
                            f"(the awaited invocation needs the slot)", {"family": "paused-worker", "backend": backend, "slots": slots, "cpu": cpu})
 
 
+def waiting_workers_and_signals(ctx: Ctx, app, task, backend: str) -> None:
+    """ProcessRunner: workers whose invocation waits are paused with SIGSTOP and resumed with SIGCONT.
+    (a) a waiting worker dies right after the liveness check of an iteration, before that iteration signals it: the runner keeps
+        running, forgets the worker at the next iteration and refills the pool;
+    (b) three workers wait for one invocation, one of them dies while paused, the awaited invocation finishes: every LIVE waiter gets its
+        SIGCONT (whatever the order in which the waiters are visited), none stays stopped for ever."""
+    import signal as _signal
+
+    from pynenc.invocation.status import InvocationStatus as S
+
+    # ---- (a)
+    im = Impl(app, "process", {"min_parallel_slots": 3}, 3)
+    drain(app)
+    with im.installed():
+        im.start()
+        route(task, 2)
+        im.iterate()
+        infos = list(im.runner.child_runner_ids.items())
+        if len(infos) >= 2:
+            (rid_a, a), (rid_b, b) = infos[0], infos[1]
+            im.runner.wait_invocation[b.invocation_id] = {a.invocation_id}       # A waits for B (B is running in the other worker)
+            real = im.runner._reclaim_available_slots
+            once = []
+
+            def reclaim():  # type: ignore[no-untyped-def]
+                n = real()
+                if not once:
+                    once.append(1)
+                    im.die([getattr(a, "process", a).idx])                      # A dies right after the liveness check
+                return n
+
+            im.runner._reclaim_available_slots = reclaim  # type: ignore[method-assign]
+            err = None
+            try:
+                im.iterate()
+            except BaseException as e:  # noqa: BLE001
+                err = f"{type(e).__name__}: {e}"
+            del im.runner._reclaim_available_slots
+            running_after = bool(im.runner.running)
+            route(task, 2)
+            im.runner.running = True if running_after else im.runner.running
+            for _ in range(3):
+                im.iterate()
+            still = rid_a in im.runner.child_runner_ids
+            ctx.count()
+            ctx.distinct((backend, "waiting-worker-dies-mid-iteration"))
+            if err is not None or not running_after or still:
+                ctx.report(f"process:waiting-worker-dies-mid-iteration[{backend}]",
+                           f"[{backend}] ProcessRunner: a worker whose invocation waits for another one dies right after the liveness check of an iteration; that iteration "
+                           f"{'raised ' + err if err else 'returned'}, the runner is {'still running' if running_after else 'SWITCHED OFF (running=False)'}, the dead worker is "
+                           f"{'still tracked' if still else 'forgotten'} three iterations later", {"family": "waiting-signals", "backend": backend, "case": "a"})
+    # ---- (b)
+    for rnd in range(6):
+        im = Impl(app, "process", {"min_parallel_slots": 4}, 4)
+        drain(app)
+        with im.installed():
+            im.start()
+            route(task, 4)
+            im.iterate()
+            infos = list(im.runner.child_runner_ids.values())
+            if len(infos) < 4:
+                continue
+            waiters, awaited = infos[:3], infos[3]
+            im.runner.wait_invocation[awaited.invocation_id] = {w.invocation_id for w in waiters}
+            im.iterate()                                                         # the waiters are paused
+            dead = waiters[rnd % 3]
+            im.die([getattr(dead, "process", dead).idx])
+            inject_status(app, awaited.invocation_id, S.SUCCESS, None, 0)          # the awaited invocation has finished
+            im.env.os_kill.signals.clear()
+            im.iterate()
+            conts = {i for i, sg in im.env.os_kill.signals if sg == int(_signal.SIGCONT)}
+            live = {getattr(w, "process", w).idx for w in waiters if w is not dead}
+            ctx.count()
+            ctx.distinct((backend, "three-waiters-one-dead", rnd % 3))
+            if not live <= conts or not im.runner.running:
+                ctx.report(f"process:live-waiter-never-resumed[{backend}]",
+                           f"[{backend}] ProcessRunner: three paused workers wait for one invocation, one of them was killed, the awaited invocation finished: SIGCONT went to workers "
+                           f"{sorted(conts)}, the live waiters are {sorted(live)} (runner running: {im.runner.running}) - a live worker stays stopped for ever", 
+                           {"family": "waiting-signals", "backend": backend, "case": "b", "round": rnd})
+                break
+
+
 def all_configs(ctx: Ctx) -> list[tuple[str, dict, int]]:
     q = ctx.quick
     cfgs: list[tuple[str, dict, int]] = []
@@ -834,6 +934,7 @@ def run(ctx: Ctx) -> None:
 
     for bk in ("mem", "sqlite"):
         paused_worker_dies(ctx, apps[bk], tasks[bk], bk)
+        waiting_workers_and_signals(ctx, apps[bk], tasks[bk], bk)
     maxn = 3 if ctx.quick else 4
     # ---- (A) every pair of subsets ------------------------------------------------------------------
     order = list(cfgs)
